@@ -7,7 +7,7 @@
 void vr_free(void *p);
 #define free(p) vr_free(p)
 #include "abti.h"
-#if OP == 2
+#if OP >= 2
 void vr_pause(void);
 #define ABTD_atomic_pause() vr_pause()      /* the polling loop of thread_join_busywait in thread.c (included below) */
 #endif
@@ -19,7 +19,7 @@ static ABTI_global G; static ABTI_pool P;
 void ABTI_unit_unmap_thread(ABTI_global *g, ABT_unit u) {}
 static int live;
 static ABTI_ythread D0, D1, D2; static int freed[3], nmk;      /* typed "malloc'ed" descriptors + release ledger */
-void vr_free(void *p) { int k = p == (void *)&D0 ? 0 : p == (void *)&D1 ? 1 : p == (void *)&D2 ? 2 : -1; __CPROVER_assert(k >= 0, "free() of a descriptor"); if (k >= 0) { __CPROVER_assert(!freed[k], "a descriptor is released exactly once"); freed[k] = 1; live--; } }
+void vr_free(void *p) { int k = p == (void *)&D0 ? 0 : p == (void *)&D1 ? 1 : p == (void *)&D2 ? 2 : -1; __CPROVER_assert(k >= 0, "free() of a descriptor"); if (k >= 0) { __CPROVER_assert(!freed[k], "a descriptor is released exactly once"); __CPROVER_assert((k == 0 ? &D0 : k == 1 ? &D1 : &D2)->thread.state.val == ABT_THREAD_STATE_TERMINATED, "a unit is released only after it has TERMINATED (never while it is still running)"); freed[k] = 1; live--; } }
 static ABTI_thread *mk(void)
 {
     int k = nmk++; ABTI_thread *t = k == 0 ? &D0.thread : k == 1 ? &D1.thread : &D2.thread;
@@ -27,7 +27,7 @@ static ABTI_thread *mk(void)
     t->p_pool = &P; t->p_keytable.val = NULL; ABTI_unit_init_builtin(t); live++;
     return t;
 }
-#if OP == 2
+#if OP >= 2
 /* each poll lets the polled-for unit finish: the first unit of the array that has not terminated yet terminates */
 void vr_pause(void) { ABTI_thread *ts[3] = { &D0.thread, &D1.thread, &D2.thread }; for (int i = 0; i < 3; i++) if (ts[i]->state.val != ABT_THREAD_STATE_TERMINATED && ts[i]->p_pool == &P) { ts[i]->state.val = ABT_THREAD_STATE_TERMINATED; return; } }
 #endif
@@ -44,6 +44,13 @@ static void one_pattern(int pat)
     VR_ASSERT(r == ABT_SUCCESS, "free_many succeeds");
     for (int i = 0; i < 3; i++) VR_ASSERT(hs[i] == ABT_THREAD_NULL, "free_many resets every handle, also those after a NULL entry");
     VR_ASSERT(live == 0, "every non-NULL entry was joined and released exactly once -- also entries after a NULL hole");
+#elif OP == 3
+    /* free_many of targets that are still RUNNING (external caller): each is joined first, then released once, handle reset */
+    for (int i = 0; i < 3; i++) if (present[i]) ((ABTI_thread *)hs[i])->state.val = ABT_THREAD_STATE_RUNNING;
+    int r = ABT_thread_free_many(3, hs);
+    VR_ASSERT(r == ABT_SUCCESS, "free_many succeeds");
+    for (int i = 0; i < 3; i++) VR_ASSERT(hs[i] == ABT_THREAD_NULL, "free_many resets every handle, also those after a NULL entry");
+    VR_ASSERT(live == 0, "every non-NULL entry was joined (waited for) and released exactly once -- also entries after a NULL hole");
 #elif OP == 2
     /* tasklet targets that are still RUNNING; the caller is an external thread and polls each one until it has terminated */
     for (int i = 0; i < 3; i++) if (present[i]) ((ABTI_thread *)hs[i])->state.val = ABT_THREAD_STATE_RUNNING;
